@@ -281,7 +281,7 @@ Definition cmap_obs (m : cmap) : list (N * list tok) :=
 Definition counter_obs (rs : list txres) : list (N * list (N * N * N)) :=
   flat_map (fun k =>
               let l := flat_map (fun p : N * txres =>
-                                   if existsb (N.eqb k) (r_chains (snd p))
+                                   if r_ok (snd p) && existsb (N.eqb k) (r_chains (snd p))   (* a FAILED transaction delivers nothing *)
                                    then [(fst p, 1, if r_batch (snd p) then 1 else 0)] else [])
                                 (combine (seqN 0 (List.length rs)) rs) in
               match l with [] => [] | _ => [(k, l)] end) chain_keys.
